@@ -65,8 +65,8 @@ type guard struct {
 var guards = []guard{
 	{pkg: ".", typ: "Cluster", field: "alerts", kind: kLocked, mutex: "alertsMux", deep: true},
 	{pkg: ".", typ: "Cluster", field: "shutdownB", kind: kLocked, mutex: "shutdownLock"},
-	{pkg: ".", typ: "Cluster", field: "readyB", kind: kLocked, mutex: "shutdownLock"},
-	{pkg: ".", typ: "Cluster", field: "removed", kind: kLocked, mutex: "shutdownLock"},
+	{pkg: ".", typ: "Cluster", field: "readyB", kind: kLocked, mutex: "stateLock"},   // since /repo 87856f0 (before: shutdownLock)
+	{pkg: ".", typ: "Cluster", field: "removed", kind: kLocked, mutex: "stateLock"},  // since /repo 87856f0
 	{pkg: "pintracker/optracker", typ: "OperationTracker", field: "operations", kind: kLocked, mutex: "mu", deep: true},
 	{pkg: "pintracker/optracker", typ: "Operation", field: "phase", kind: kLocked, mutex: "mu"},
 	{pkg: "pintracker/optracker", typ: "Operation", field: "error", kind: kLocked, mutex: "mu"},
@@ -2879,7 +2879,7 @@ func main() {
 	}
 	emitSrc("stateless", "pintracker/stateless/stateless.go", [][2]string{{"", "New"}, {"*Tracker", "opWorker"}, {"*Tracker", "enqueue"}, {"*Tracker", "SetClient"}, {"*Tracker", "Shutdown"}})
 	emitSrc("crdt", "consensus/crdt/consensus.go", [][2]string{{"", "New"}, {"*Consensus", "setup"}, {"*Consensus", "Shutdown"}, {"*Consensus", "SetClient"}, {"*Consensus", "Ready"}, {"*Consensus", "LogPin"}, {"*Consensus", "LogUnpin"}, {"*Consensus", "batchWorker"}})
-	emitSrc("cluster", "cluster.go", [][2]string{{"*Cluster", "run"}, {"*Cluster", "ready"}, {"*Cluster", "Ready"}, {"*Cluster", "Shutdown"}, {"*Cluster", "Done"}, {"*Cluster", "watchPeers"}})
+	emitSrc("cluster", "cluster.go", [][2]string{{"", "NewCluster"}, {"*Cluster", "run"}, {"*Cluster", "ready"}, {"*Cluster", "Ready"}, {"*Cluster", "Shutdown"}, {"*Cluster", "Done"}, {"*Cluster", "watchPeers"}})
 	w("end Src\n\nend CV.C18.Gen\n")
 	fmt.Print(b.String())
 
